@@ -67,8 +67,10 @@ package rpc
 //@   ensures bound: result == nil ==> (res != nil && res.Block != nil && vhdr(types.Block.Hash(res.Block)) && res.BlockID.Hash == types.Block.Hash(res.Block) &&
 //@     | res.Block.Header.DataHash == types.Data.Hash(&res.Block.Data))
 //@ func Client.Block
+//@   ensures asked: (result1 == nil && height != nil) ==> result0.Block.Header.Height == old(*height)
 //@   ensures bound: result1 == nil ==> (result0 != nil && result0.Block != nil && vhdr(types.Block.Hash(result0.Block)) && result0.BlockID.Hash == types.Block.Hash(result0.Block))
 //@ func Client.BlockByHash
+//@   ensures asked: result1 == nil ==> result0.BlockID.Hash == hash
 //@   ensures bound: result1 == nil ==> (result0 != nil && result0.Block != nil && vhdr(types.Block.Hash(result0.Block)) && result0.BlockID.Hash == types.Block.Hash(result0.Block))
 //@ func Client.BlockSearch
 //@   ensures bound: result1 == nil ==> forall(i, 0, len(result0.Blocks), vhdr(types.Block.Hash(result0.Blocks[i].Block)))
@@ -77,6 +79,7 @@ package rpc
 
 // Block results are relayed only if their hash is the LastResultsHash of the light-verified header one above.
 //@ func Client.BlockResults
+//@   ensures asked: result1 == nil ==> (result0.Height == h && (height != nil ==> h == old(*height)))
 //@   ensures bound: result1 == nil ==> vlastres(types.ABCIResults.Hash(types.NewResults(result0.TxsResults)), h + 1)
 
 // The commit relayed is the light client's own signed header.
@@ -125,6 +128,7 @@ package rpc
 //@     | (resp.Value == nil ==> provesAbsence(resp.ProofOps, l.SignedHeader.Header.AppHash, string(resp.Key))))
 
 //@ func Client.ConsensusParams
+//@   ensures asked: (result1 == nil && height != nil) ==> result0.BlockHeight == old(*height)
 //@   ensures bound: result1 == nil ==> vcons(types.HashConsensusParams(result0.ConsensusParams), result0.BlockHeight)
 
 //@ func validatePerPage
